@@ -20,6 +20,19 @@ type BasicType interface {
 		~float32 | ~float64
 }
 
+// ErrLengthOverflow is returned when a text or list is too long for its wire length prefix.
+var ErrLengthOverflow = errors.New("length exceeds the range of its length prefix")
+
+// lengthPrefix converts a length to its prefix type, refusing lengths the prefix cannot represent
+// (a silently wrapped prefix followed by the full data would desynchronise the stream).
+func lengthPrefix[T constraints.Unsigned](n int) (T, error) {
+	t := T(n)
+	if uint64(t) != uint64(n) {
+		return 0, ErrLengthOverflow
+	}
+	return t, nil
+}
+
 func WriteBasicType[T BasicType](buf *bytes.Buffer, v T) error {
 	return binary.Write(buf, binary.BigEndian, &v)
 }
@@ -42,7 +55,11 @@ func ReadBasicTypeLE[T BasicType](buf *bytes.Buffer) (T, error) {
 }
 
 func WriteBasicTypeList[T constraints.Unsigned, K BasicType](buf *bytes.Buffer, values []K) error {
-	if err := binary.Write(buf, binary.BigEndian, T(len(values))); err != nil {
+	nt, err := lengthPrefix[T](len(values))
+	if err != nil {
+		return err
+	}
+	if err := binary.Write(buf, binary.BigEndian, nt); err != nil {
 		return err
 	}
 	for _, s := range values {
@@ -54,7 +71,11 @@ func WriteBasicTypeList[T constraints.Unsigned, K BasicType](buf *bytes.Buffer, 
 }
 
 func WriteBasicTypeListLE[T constraints.Unsigned, K BasicType](buf *bytes.Buffer, values []K) error {
-	if err := binary.Write(buf, binary.LittleEndian, T(len(values))); err != nil {
+	nt, err := lengthPrefix[T](len(values))
+	if err != nil {
+		return err
+	}
+	if err := binary.Write(buf, binary.LittleEndian, nt); err != nil {
 		return err
 	}
 	for _, s := range values {
@@ -109,7 +130,11 @@ func ReadBasicTypeListLE[T constraints.Unsigned, K BasicType](buf *bytes.Buffer)
 // ----------------------------
 
 func WriteString[T constraints.Unsigned](buf *bytes.Buffer, s string) error {
-	if err := binary.Write(buf, binary.BigEndian, T(len(s))); err != nil {
+	nt, err := lengthPrefix[T](len(s))
+	if err != nil {
+		return err
+	}
+	if err := binary.Write(buf, binary.BigEndian, nt); err != nil {
 		return err
 	}
 	if _, err := buf.WriteString(s); err != nil {
@@ -119,7 +144,11 @@ func WriteString[T constraints.Unsigned](buf *bytes.Buffer, s string) error {
 }
 
 func WriteStringLE[T constraints.Unsigned](buf *bytes.Buffer, s string) error {
-	if err := binary.Write(buf, binary.LittleEndian, T(len(s))); err != nil {
+	nt, err := lengthPrefix[T](len(s))
+	if err != nil {
+		return err
+	}
+	if err := binary.Write(buf, binary.LittleEndian, nt); err != nil {
 		return err
 	}
 	if _, err := buf.WriteString(s); err != nil {
@@ -193,7 +222,11 @@ func WriteFixedStringList[T constraints.Unsigned](buf *bytes.Buffer, values []st
 }
 
 func WriteFixedStringListWithPadding[T constraints.Unsigned](buf *bytes.Buffer, values []string, fixedLen int, padChar rune, padLeft bool) error {
-	if err := binary.Write(buf, binary.BigEndian, T(len(values))); err != nil {
+	nt, err := lengthPrefix[T](len(values))
+	if err != nil {
+		return err
+	}
+	if err := binary.Write(buf, binary.BigEndian, nt); err != nil {
 		return err
 	}
 
@@ -211,7 +244,11 @@ func WriteFixedStringListLE[T constraints.Unsigned](buf *bytes.Buffer, values []
 	return WriteFixedStringListWithPaddingLE[T](buf, values, fixedLen, ' ', false)
 }
 func WriteFixedStringListWithPaddingLE[T constraints.Unsigned](buf *bytes.Buffer, values []string, fixedLen int, padChar rune, padLeft bool) error {
-	if err := binary.Write(buf, binary.LittleEndian, T(len(values))); err != nil {
+	nt, err := lengthPrefix[T](len(values))
+	if err != nil {
+		return err
+	}
+	if err := binary.Write(buf, binary.LittleEndian, nt); err != nil {
 		return err
 	}
 
@@ -297,13 +334,21 @@ func ReadFixedStringListTrimPaddingLE[T constraints.Unsigned](buf *bytes.Buffer,
 // K: type used for each string's length prefix (e.g., uint8, uint16, uint32)
 func WriteStringListLE[T constraints.Unsigned, K constraints.Unsigned](buf *bytes.Buffer, values []string) error {
 	// Write the list length prefix
-	if err := binary.Write(buf, binary.LittleEndian, T(len(values))); err != nil {
+	nt, err := lengthPrefix[T](len(values))
+	if err != nil {
+		return err
+	}
+	if err := binary.Write(buf, binary.LittleEndian, nt); err != nil {
 		return err
 	}
 
 	// Write each string with its own length prefix
 	for _, s := range values {
-		if err := binary.Write(buf, binary.LittleEndian, K(len(s))); err != nil {
+		nk, err := lengthPrefix[K](len(s))
+		if err != nil {
+			return err
+		}
+		if err := binary.Write(buf, binary.LittleEndian, nk); err != nil {
 			return err
 		}
 		buf.WriteString(s)
@@ -313,13 +358,21 @@ func WriteStringListLE[T constraints.Unsigned, K constraints.Unsigned](buf *byte
 
 func WriteStringList[T constraints.Unsigned, K constraints.Unsigned](buf *bytes.Buffer, values []string) error {
 	// Write the list length prefix
-	if err := binary.Write(buf, binary.BigEndian, T(len(values))); err != nil {
+	nt, err := lengthPrefix[T](len(values))
+	if err != nil {
+		return err
+	}
+	if err := binary.Write(buf, binary.BigEndian, nt); err != nil {
 		return err
 	}
 
 	// Write each string with its own length prefix
 	for _, s := range values {
-		if err := binary.Write(buf, binary.BigEndian, K(len(s))); err != nil {
+		nk, err := lengthPrefix[K](len(s))
+		if err != nil {
+			return err
+		}
+		if err := binary.Write(buf, binary.BigEndian, nk); err != nil {
 			return err
 		}
 		buf.WriteString(s)
@@ -385,7 +438,11 @@ func ReadStringList[T constraints.Unsigned, K constraints.Unsigned](buf *bytes.B
 // Object
 func WriteObjectList[T constraints.Unsigned, K BinaryCodec](buf *bytes.Buffer, values []K) error {
 	// Write the list length prefix
-	if err := binary.Write(buf, binary.BigEndian, T(len(values))); err != nil {
+	nt, err := lengthPrefix[T](len(values))
+	if err != nil {
+		return err
+	}
+	if err := binary.Write(buf, binary.BigEndian, nt); err != nil {
 		return err
 	}
 
@@ -419,7 +476,11 @@ func ReadObjectList[T constraints.Unsigned, K BinaryCodec](buf *bytes.Buffer, ne
 // Object
 func WriteObjectListLE[T constraints.Unsigned, K BinaryCodec](buf *bytes.Buffer, values []K) error {
 	// Write the list length prefix
-	if err := binary.Write(buf, binary.LittleEndian, T(len(values))); err != nil {
+	nt, err := lengthPrefix[T](len(values))
+	if err != nil {
+		return err
+	}
+	if err := binary.Write(buf, binary.LittleEndian, nt); err != nil {
 		return err
 	}
 
